@@ -246,6 +246,15 @@ def run(ctx):
                         label='complete reachable state space (VIEW = implementation state)')
     ctx.expect_ok(r, 'AllocImpl refines Alloc (complete)')
     ctx.cov['impl_model_complete_states'] = r.distinct
+    # sensitivity of the refinement check itself: the transcription of the PINNED _find_next must fail it
+    from harness.tlc import TlcError
+    try:
+        r = ctx.model_check('AllocImpl', 'AllocImpl_pinned.cfg', timeout=600, workers=4, label='pinned _find_next (must fail)')
+        failed = not r.ok
+    except TlcError as e:
+        failed = 'StepRefines' in str(e)
+    if not failed:
+        raise MachineryError('AllocImpl with the pinned _find_next refines Alloc: the refinement check is vacuous')
     r = ctx.model_check('NodeIds', 'NodeIds.cfg', require_cover=('Alloc',), timeout=600)
     ctx.expect_ok(r, 'NodeIds')
 
